@@ -91,6 +91,12 @@ def run(ck):
         ver = open(os.path.join(ck.bdir, 'gen', 'VERSION')).read().strip()
         for k in range(N):
             kind, names, rows = fc.gen_alignment(rng)
+            if k % 40 == 1:     # wider than 4096 columns (buffer sizes of chunked writers): every format must still wrap at 60
+                W = rng.choice([4097, 4156, 4396, 8200])
+                base = gen.rand_seq(rng, gen.DNA, W)
+                kind, names = 'dna', ['wide%d' % i for i in range(3)]
+                rows = [base, base[:W // 2] + '-' * 7 + base[W // 2 + 7:], '-' * 5 + base[5:]]
+                ck.count('alignments wider than 4096 columns')
             if k % 7 == 3:      # FASTA header lines longer than the 256-byte name field of the block writers
                 names = ['%03d' % i + gen.rand_seq(rng, fc.NAMECH, rng.choice([252, 253, 254, 255, 258, 300, 400])) for i in range(len(names))]
                 ck.count('names longer than 250')
@@ -130,6 +136,13 @@ def run(ck):
                 if len(seqs) < 2: continue
                 names = fc.gen_names(rng, len(seqs))
                 fmt = rng.choice(['msf', 'msf', 'clu', 'fasta'])
+                if k % 4 == 3 and len(seqs) >= 3:     # header-only records in the middle of the input: dropped, the rest written as usual
+                    allnames = names[:1] + ['empty_a', 'empty_b'] + names[1:]
+                    allseqs = seqs[:1] + ['', ''] + seqs[1:]
+                    fmt = rng.choice(['msf', 'clu'])
+                    ck.count('inputs with header-only records')
+                    jobs.append((kind, names, seqs, fmt, fr.add([gen.fasta(allnames, allseqs)], fmt, 2, 5)))
+                    continue
                 jobs.append((kind, names, seqs, fmt, fr.add([gen.fasta(names, seqs)], fmt, 2, 5)))
             res = fr.run()
             for kind, names, seqs, fmt, j in jobs:
